@@ -424,13 +424,13 @@ def handle (op : String) (args : List String) : Except String String :=
     let look (n : Bytes) : Option Bytes := (scripts.find? (fun p => p.1 = n)).map (·.2)
     pure (hex (Tar.archive (DebCtl.ipkMembers mtime control conf look)))
   | "apkcontrolseg" => do
-    let (pkginfo, scripts) ← run1 (do
-      let p ← pBytes
+    let (pkginfo, mtime, scripts) ← run1 (do
+      let p ← pBytes; let mt ← pNat
       let sc ← pList (do let n ← pBytes; let b ← pBytes; let t ← pNat; let d ← pBytes; pure (n, b, t, d))
-      pure (p, sc)) args
+      pure (p, mt, sc)) args
     let look (n : Bytes) : Option (Bytes × Nat) := (scripts.find? (fun p => p.1 = n)).map (fun p => (p.2.1, p.2.2.1))
     let sha (body : Bytes) : Bytes := ((scripts.find? (fun p => p.2.1 = body)).map (fun p => p.2.2.2)).getD []
-    pure (hex (Pkg.cut (ApkCtl.members sha pkginfo look)))
+    pure (hex (Pkg.cut (ApkCtl.members sha pkginfo look mtime)))
   -- rpm: the whole main header from the resolved settings, the files found, the configured relations, the changelog tags
   | "rpmheader" => do
     let pFile : P RpmFiles.RFile := do
